@@ -13,6 +13,7 @@ class EnvSource:
     parent: tuple = None   # parent source
     nodes: NodeList = None      # list of nodes (only for remote sources)
     sources: 'SourceList' = None  # list of sources (only for remote sources)
+    units = None                  # list of custom units (only for remote DIP sources; plain attribute, not a field)
     
 @dataclass
 class SourceList:
